@@ -63,6 +63,9 @@ def gen_circle3(rng):
     r = rng.random()
     if r < 0.7:
         cx, cy, rad = rng.uniform(-5, 5), rng.uniform(-5, 5), rng.uniform(0.1, 10)
+        if rng.random() < 0.3:      # a small circle far from the origin (part coordinates): nothing about a circle depends on where it is
+            off = rng.choice([100.0, 1000.0, 5000.0])
+            cx, cy, rad = rng.uniform(-1, 1) * off, rng.uniform(-1, 1) * off, rng.uniform(0.5, 3)
         a = sorted(rng.uniform(0, 2 * math.pi) for _ in range(3))
         rng.shuffle(a)
         pts = [[cx + rad * math.cos(t), cy + rad * math.sin(t)] for t in a]
